@@ -302,7 +302,7 @@ func cmdCheck(args []string) int {
 					fmt.Printf("   ok    %-90s %s %v\n", o.Name, o.Result.Solver, o.Result.Time.Round(time.Millisecond))
 				}
 			default:
-				failures = append(failures, &Failure{Ob: o, Run: r, Name: o.Name, Reason: o.Result.Status})
+				failures = append(failures, &Failure{Ob: o, Run: r, Name: o.Name, Reason: o.Result.Status, Detail: o.Detail})
 			}
 		}
 		var deadNow []*Obligation
